@@ -49,6 +49,16 @@ def corpus():
     out.append("submul_nx1 0 %s %s Z:%x" % (C.tokL([0, 0]), C.tokL([F, F]), F))
     out.append("sbb_n 0 L:0 L:0 Z:%x" % F)
     out.append("adc_n 0 %s %s Z:%x" % (C.tokL([F, F]), C.tokL([F, F]), F))
+    # the accumulator runs out exactly at a row whose multiplier limb is zero (interior zero of the
+    # shorter operand): must report overflow, must not index past the window
+    for L_ in range(0, 6):
+        for extra in (1, 2, 3):
+            b = [3] * L_ + [0] * extra + [5]
+            for la in (len(b), len(b) + 2):
+                a = [7] * la
+                out.append("addmul 0 %s %s %s" % (C.tokL([9] * L_), C.tokL(a), C.tokL(b)))
+                out.append("addmul 0 %s %s %s" % (C.tokL([F] * L_), C.tokL(b), C.tokL(a)))
+                out.append("addmul 0 %s %s %s" % (C.tokL([1] * (L_ + 1)), C.tokL(a), C.tokL(b)))
     out.append("adc_n 0 L:1,2 L:1 Z:0")               # rhs shorter: panics
     out.append("addmul_n 0 L:1,2 L:1 L:1,2")          # length mismatch: panics
     return out
